@@ -53,7 +53,7 @@ COMMIT_CALLS = {('CSSStyleSheet', '_updateVariables'): 'variables',   # recomput
                 ('CSSStyleSheet', '_cleanNamespaces'): 'cssRules',   # after a parse every non-effective @namespace rule shares its URI
                                                                  # with an effective one: deleteRule's in-use refusal cannot fire
                 }
-INLINE_SETTERS = {('CSSImportRule', 'href'), ('MediaQuery', 'mediaType')}      # setters analysed in place rather than assumed disciplined
+INLINE_SETTERS = {('CSSImportRule', 'href'), ('MediaQuery', 'mediaType'), ('Property', 'propertyValue')}      # setters analysed in place rather than assumed disciplined
 NONE_STORES = {('Property', 'propertyValue'), ('Property', 'priority')}   # handed None: cleared, cannot reject
 OBJECT_STORES = {
     ('CSSFontFaceRule', 'style'), ('CSSPageRule', 'style'), ('CSSStyleRule', 'style'), ('CSSStyleRule', 'selectorList'),
@@ -144,6 +144,9 @@ class Ctx:
         self.local_defs = {}
         self.aliases = {}          # local name → field of self it aliases
         self.cur = []              # fields that may have been stored to on a path reaching this point
+        self.fresh = set()         # fields that hold an object created during this call (in-place changes below
+                                   # them do not touch the old state)
+        self.fresh_locals = set()  # locals bound to the result of a call
         self.saved = {}            # local name → set of fields whose old value it holds
         self.funcs = funcs
         self.depth = depth
@@ -359,9 +362,16 @@ class Translator:
                 if isinstance(f, ast.Attribute) and f.attr == 'update' and isinstance(f.value, ast.Attribute) and \
                         f.value.attr == '__dict__' and is_self(f.value.value) and st.value.args and \
                         isinstance(st.value.args[0], ast.Name) and ctx.saved.get(st.value.args[0].id) == {'*'}:
-                    rs |= set(self.mut_fields(try_ir))
+                    inv = {v: k for k, v in self.fields.items()}
+                    rs |= set(i for i in self.mut_fields(try_ir) if not inv[i].endswith('*'))
                 elif isinstance(f, ast.Attribute) and is_self(f.value) and f.attr == '_updateVariables':
                     rs.add(self.fid('variables'))
+                # alias.__dict__.update(saved_alias_dict): the object below the field is put back too
+                elif isinstance(f, ast.Attribute) and f.attr == 'update' and isinstance(f.value, ast.Attribute) and \
+                        f.value.attr == '__dict__' and isinstance(f.value.value, ast.Name) and \
+                        f.value.value.id in ctx.aliases and st.value.args and isinstance(st.value.args[0], ast.Name) and \
+                        ctx.saved.get(st.value.args[0].id) == {'*' + f.value.value.id}:
+                    rs.add(self.fid(ctx.aliases[f.value.value.id] + '*'))
         return rs
 
     def is_saved_value(self, value, ctx):
@@ -376,6 +386,11 @@ class Translator:
         if isinstance(value, ast.Call) and isinstance(value.func, ast.Name) and value.func.id == 'dict' and value.args and \
                 isinstance(value.args[0], ast.Attribute) and value.args[0].attr == '__dict__' and is_self(value.args[0].value):
             return {'*'} if not ctx.cur else None
+        if isinstance(value, ast.Call) and isinstance(value.func, ast.Name) and value.func.id == 'dict' and value.args and \
+                isinstance(value.args[0], ast.Attribute) and value.args[0].attr == '__dict__' and \
+                isinstance(value.args[0].value, ast.Name) and value.args[0].value.id in ctx.aliases:
+            fld = ctx.aliases[value.args[0].value.id]
+            return {'*' + value.args[0].value.id} if self.fid(fld + '*') not in (ctx.cur or []) else None
         return None
 
     def mut_fields(self, ir):
@@ -395,6 +410,10 @@ class Translator:
     def assign_target(self, t, value, ctx):
         if isinstance(t, (ast.Tuple, ast.List)):
             vals = value.elts if isinstance(value, (ast.Tuple, ast.List)) and len(value.elts) == len(t.elts) else [None] * len(t.elts)
+            if isinstance(value, ast.Call):
+                for x in t.elts:
+                    if isinstance(x, ast.Name):
+                        ctx.fresh_locals.add(x.id)
             return seq(*[self.assign_target(x, v, ctx) for x, v in zip(t.elts, vals)])
         if isinstance(t, ast.Name):
             # a local that holds the old value of a field (for a restoring handler): only good if the field has
@@ -403,6 +422,10 @@ class Translator:
                 fs = self.saved_fields_of(value, ctx)
                 if fs is not None:
                     ctx.saved[t.id] = fs
+            if isinstance(value, ast.Call):
+                ctx.fresh_locals.add(t.id)
+            elif value is not None:
+                ctx.fresh_locals.discard(t.id)
             # alias tracking: a local bound to (something below) a field of self
             ctx.aliases.pop(t.id, None)
             if value is not None and not isinstance(value, ast.Call):
@@ -422,6 +445,10 @@ class Translator:
         if f in IGNORED_FIELDS:
             return SKIP
         if isinstance(t, ast.Attribute) and is_self(t.value):
+            if isinstance(value, ast.Call) or (isinstance(value, ast.Name) and value.id in ctx.fresh_locals):
+                ctx.fresh.add(canon(t.attr))
+            else:
+                ctx.fresh.discard(canon(t.attr))
             if has_setter(ctx.cls, t.attr) and (ctx.cls.__name__, t.attr) in NONE_STORES and \
                     isinstance(value, ast.Constant) and value.value is None:
                 return ('store', self.fid(t.attr))
@@ -435,10 +462,16 @@ class Translator:
                 self.notes['call_fields'].add('%s.%s' % (ctx.cls.__name__, t.attr))
                 return ('call', [self.fid(t.attr)])
             return ('store', self.fid(t.attr))
+        # below a field: the object held there is changed in place (putting the field back does not undo that,
+        # unless the object was created during this call)
+        if canon(f) in ctx.fresh:
+            if isinstance(t, ast.Attribute) and t.attr in PARSING_ATTRS:
+                return ('call', [self.fid(f)])
+            return ('store', self.fid(f))
         if isinstance(t, ast.Attribute) and t.attr in PARSING_ATTRS:
             self.notes['call_fields'].add('%s.%s.%s' % (ctx.cls.__name__, f, t.attr))
-            return ('call', [self.fid(f)])
-        return ('store', self.fid(f))
+            return ('call', [self.fid(f + '*')])
+        return ('store', self.fid(f + '*'))
 
     # --- expressions: events of every call inside, in source order
     def expr(self, e, ctx):
